@@ -17,14 +17,6 @@ structure Rep where
   tag : Bytes := []
 deriving Repr, DecidableEq, Inhabited
 
-/-- `GetExpLoc` -/
-def expLoc : Exp → Loc
-  | .nil l | .tru l | .fls l | .vararg l | .int _ l | .flt _ l | .str _ l | .unop _ _ l | .binop _ _ _ l
-  | .table _ _ l | .name _ l | .parens _ l | .index _ _ l | .call _ _ _ l | .bad l => l
-  | .func (.mk _ _ _ _ _ _ l) => l
-  | .noKey => zeroLoc
-
-def isInitialLoc (l : Loc) : Bool := l.sl == 0 && l.sc == 0 && l.el == 0 && l.ec == 0
 
 /-! float literals are compared through their value: a decimal numeral `ddd[.ddd][e[±]ddd]` denotes the
 rational num / den (exactly — the rounding of `strconv.ParseFloat` to a float64 is not modelled, so numerals
